@@ -473,6 +473,23 @@ class Extractor:
                 self.pending_after_container = []
             elif word == 'assoc':
                 self._assoc(bare[0])
+            elif word == 'forbid-literal':
+                # //@ forbid-literal <mod> <Type>...   structural obligation per type: the (macro-expanded) module never builds a value of the type
+                # with a struct literal - i.e. every such value comes out of a constructor / builder function (which are under contract)
+                xsrc = self.expanded_provider()
+                xmod = xsrc.find('mod', bare[0])
+                code_ = ''.join(c if m_ else ' ' for c, m_ in zip(xsrc.text[xmod.body_open:xmod.end], xsrc.mask[xmod.body_open:xmod.end]))
+                for ty_ in bare[1:]:
+                    hits = re.findall(r'(?<![\w:])(?:crate\s*::\s*)?%s\s*(?:::\s*<[^{}();]*?>\s*)?\{' % re.escape(ty_), code_)
+                    # `impl .. for Type {` / `-> Type {` are not literals: count only occurrences in expression position (after `(`, `=`, `,`, `{`, `;`, `return`, `=>`)
+                    n_ = 0
+                    for mm_ in re.finditer(r'(?<![\w:])(?:crate\s*::\s*)?%s\s*(?:::\s*<[^{}();]*?>\s*)?\{' % re.escape(ty_), code_):
+                        before_ = code_[:mm_.start()].rstrip()
+                        if before_.endswith(('(', '=', ',', '{', ';', '=>', '}')) or re.search(r'\b(?:return|in)$', before_):
+                            n_ += 1
+                    self._forbid_n = getattr(self, '_forbid_n', 0) + 1
+                    self.out.emit('// structural obligation: mod %s builds `%s` with a struct literal %d time(s); every definition there must come out of a constructor under contract\nproof fn forbid_obligation_%d()\n    ensures %s,\n{}'
+                                  % (bare[0], ty_, n_, self._forbid_n, 'true' if n_ == 0 else 'false'), 'tmpl', 'tmpl::no_literal::%s::%s' % (bare[0], ty_))
             elif word == 'forbid-call':
                 # //@ forbid-call <name> [allow=N in `<item>`]...   unit-level structural obligation, one per verified function emitted so far:
                 # the body must not call <name> (in any spelling: method, path, UFCS) - except the stated number of times in the named item
@@ -523,6 +540,7 @@ class Extractor:
                         cur.twin_as = o[3:]
                 cur_kind = word
                 cur.external = ('external' in opts) or self.force_external
+                cur.optional = 'optional' in opts      # a function the impl may legitimately lack (a provided trait method the derive overrides only sometimes)
                 for o in opts:
                     if o.startswith('name='):
                         cur.obl = o[5:]
@@ -574,7 +592,12 @@ class Extractor:
             elif word == 'params':
                 cur.params = list(bare)
             elif word == 'end':
-                self._emit_fn(cur, cur_kind, cur_src)
+                try:
+                    self._emit_fn(cur, cur_kind, cur_src)
+                except LostAnchor:
+                    if not getattr(cur, 'optional', False):
+                        raise
+                    self.log.drop('optional function absent', str(cur_src or ''), 0, cur.name)
                 cur, target, cur_scope = None, None, None
             else:
                 raise ValueError('%s:%d: unknown directive %s' % (tname, ln, word))
